@@ -887,19 +887,21 @@ func (c *Ctx) redisClassEdges(r *redisRoles, r1, r2 string) {
 func (c *Ctx) redisWaitResults(r *redisRoles, rule string) {
 	fn := r.storage["WaitForVersionChange"]
 	n := 0
-	for _, ret := range ir.Returns(fn) {
-		ev := ir.Resolve(ir.ResultValue(ret, 0))
+	for _, e := range ir.ExitPoints(fn) {
+		ret := e.Ret
+		ev := ir.Resolve(e.Result(0))
 		switch {
 		case ir.IsNilConst(ev):
 			n++
-			ok := hasFactCmp(ret.Block(), func(cm ir.Cmp) bool {
-				return cm.Op == token.NEQ && (ir.LoadedField(cm.X) == r.recVersion || ir.LoadedField(cm.Y) == r.recVersion)
+			ok := e.HasFact(func(f ir.Fact) bool {
+				cm, isCmp := f.Cmp()
+				return isCmp && cm.Op == token.NEQ && (ir.LoadedField(cm.X) == r.recVersion || ir.LoadedField(cm.Y) == r.recVersion)
 			})
 			c.Decide(rule, fn, "nil only when the stored version differs", ret, ok, "the polling waiter returns nil on a path where the version was not seen to differ")
 		default:
 			if call, ok := ev.(*ssa.Call); ok && call.Call.IsInvoke() && call.Call.Method.Name() == "Err" {
 				n++
-				okG := ir.HasFact(ret.Block(), func(f ir.Fact) bool {
+				okG := e.HasFact(func(f ir.Fact) bool {
 					cm, isCmp := f.Cmp()
 					if !isCmp || cm.Op != token.EQL {
 						return false
@@ -918,8 +920,8 @@ func (c *Ctx) redisWaitResults(r *redisRoles, rule string) {
 	// the poll reads through Get (which maps a missing key to ErrNotExist) and its error is returned
 	okGet := false
 	for _, call := range callsTo(fn, r.storage["Get"]) {
-		for _, ret := range ir.Returns(fn) {
-			if ex, ok := ir.Resolve(ir.ResultValue(ret, 0)).(*ssa.Extract); ok && ex.Tuple == ssa.Value(call) && ex.Index == 1 {
+		for _, e := range ir.ExitPoints(fn) {
+			if ex, ok := ir.Resolve(e.Result(0)).(*ssa.Extract); ok && ex.Tuple == ssa.Value(call) && ex.Index == 1 {
 				okGet = true
 			}
 		}
